@@ -92,8 +92,14 @@ def BinaryOp.storeFree : BinaryOp → Bool
   | .mem | .getTag | .hasTag => false
   | _ => true
 
-/-- the fragment of expressions covered by `pinterp_sound_partial` (no unknowns in the policy text, no
-    set/record/extension-call constructors, no store-dependent binary operators) -/
+/-- side condition on an extension function admitted in the fragment: the values it returns survive
+    `Value.toExpr` (trivially so for the functions returning Booleans / longs; for the constructors `decimal`, `ip`,
+    `datetime`, `duration`, `offset`, … this is the print/parse round trip of the canonical rendering — Rust keeps the
+    original constructor call instead) -/
+def CallDRT (fn : String) : Prop := ∀ vs w, callExt fn vs = .ok w → w.DRT
+
+/-- the fragment of expressions covered by `pinterp_sound_partial` (no unknowns in the policy text, no record
+    constructors; extension calls for functions satisfying `CallDRT`) -/
 inductive Frag : Expr → Prop
   | lit (p : Prim) : Frag (.lit p)
   | var (v : Var) : Frag (.var v)
@@ -102,11 +108,13 @@ inductive Frag : Expr → Prop
   | and {a b : Expr} : Frag a → Frag b → Frag (.and a b)
   | or {a b : Expr} : Frag a → Frag b → Frag (.or a b)
   | unaryApp (op : UnaryOp) {a : Expr} : Frag a → Frag (.unaryApp op a)
-  | binaryApp (op : BinaryOp) {a b : Expr} : op.storeFree = true → Frag a → Frag b → Frag (.binaryApp op a b)
+  | binaryApp (op : BinaryOp) {a b : Expr} : Frag a → Frag b → Frag (.binaryApp op a b)
   | getAttr {e : Expr} (a : String) : Frag e → Frag (.getAttr e a)
   | hasAttr {e : Expr} (a : String) : Frag e → Frag (.hasAttr e a)
   | like {e : Expr} (p : Pattern) : Frag e → Frag (.like e p)
   | is {e : Expr} (ty : EntityType) : Frag e → Frag (.is e ty)
+  | set {xs : List Expr} : (∀ x, x ∈ xs → Frag x) → Frag (.set xs)
+  | call (fn : String) {args : List Expr} : fn ≠ "unknown" → CallDRT fn → (∀ x, x ∈ args → Frag x) → Frag (.call fn args)
 
 /-! ### the concrete store seen through `PEntities.ofConcrete` -/
 
